@@ -221,6 +221,21 @@ theorem own_step (s s' : St) (e : Ev) (hi : Inv s) (hb : Bnd s) (ho : Own s)
       | (obtain ⟨h1, hs⟩ := hs; subst hs; intro k hk1 hk2; simp only [upd] at *
          obtain ⟨t0, h0⟩ := ho k hk1 hk2; exists t0; grind [holder])
 
+/-- `Own` in every state of a bounded run -/
+theorem own_of_runFrom {v0 : Nat} {es : List Ev} : ∀ {s0 s : St}, Inv s0 → Own s0 →
+    BoundedRun s0 es → (sys v0).runFrom s0 es = some s → Own s := by
+  induction es with
+  | nil => intro s0 s _ ho _ hr; simp [Sys.runFrom] at hr; subst hr; exact ho
+  | cons e es ih =>
+    intro s0 s hi ho hb hr
+    obtain ⟨s1, h1, hr'⟩ := runFrom_cons hr
+    simp only [BoundedRun, h1] at hb
+    exact ih (inv_step s0 s1 e hi hb.1 h1) (own_step s0 s1 e hi hb.1 ho h1) hb.2 hr'
+
+theorem own_of_run {v0 : Nat} {es : List Ev} {s : St}
+    (hr : (sys v0).run es = some s) (hb : BoundedRun (init v0) es) : Own s :=
+  own_of_runFrom (inv_init v0) (own_init v0) hb hr
+
 /-- relational pigeonhole: `m` items, each owned by one of `n` owners, no owner owning two -/
 theorem pigeon : ∀ (n m : Nat) (R : Nat → Nat → Prop),
     (∀ k, k < m → ∃ t, t < n ∧ R k t) →
